@@ -225,8 +225,9 @@ def oracle(mesh, q, r, elem_ids):
     ent = {(i, j): v for i, j, v in tr}
     if k == 'inc':
         nodes, conn = first_order_view(mesh, q['order1'])
-        exp = sorted((i, j, 1) for j, e in enumerate(elem_ids) for i, nid in enumerate(nodes)
-                     if nid in conn[e])
+        pos = {nid: i for i, nid in enumerate(nodes)}      # node ids are distinct
+        exp = sorted((pos[nid], j, 1) for j, e in enumerate(elem_ids) for nid in set(conn[e])
+                     if nid in pos)
         if shape != (len(nodes), len(elem_ids)):
             return f'shape {shape} != {(len(nodes), len(elem_ids))}'
         return None if exp == tr else 'incidence entries differ from membership'
@@ -262,15 +263,21 @@ def oracle(mesh, q, r, elem_ids):
     if k == 'lap':
         if shape != (n, n):
             return f'shape {shape}'
+        rows = {}
+        for (a, b_), v in ent.items():
+            rows.setdefault(a, {})[b_] = v
+        if any(a < 0 or a >= n for a in rows):
+            return 'entry outside the shape'
         for i in range(n):
-            if sum(v for (a, _), v in ent.items() if a == i) != 0:
+            row = rows.get(i, {})
+            if sum(row.values()) != 0:
                 return f'row {i} does not sum to zero'
-            for j in range(n):
-                v = ent.get((i, j), 0)
+            for j in sorted(set(row) | adj[i]):
+                v = row.get(j, 0)
                 if i != j and v != (1 if j in adj[i] else 0):
                     return f'off-diagonal ({i},{j}) = {v}'
-            if ent.get((i, i), 0) != -len(adj[i] - {i}):
-                return f'diagonal {i} = {ent.get((i, i), 0)} != -degree'
+            if row.get(i, 0) != -len(adj[i] - {i}):
+                return f'diagonal {i} = {row.get(i, 0)} != -degree'
         return None
     if k == 'grad':
         edges = sorted((i, j) for i in range(n) for j in adj[i] if i < j)
@@ -420,6 +427,182 @@ def coq_check(ctx, cases, results, name):
     return out
 
 
+# ------------------------------------------- stage-wise (graph-level) check
+# Meshes too large for the in-Coq evaluation of mesh -> incidence -> adjacency
+# (hub meshes: vertex degree >= 2^7, 2^8): the operators that FOLLOW the
+# adjacency matrix are evaluated in Coq (`Model.run_gquery`) on the adjacency
+# matrix the implementation returned for the same mesh, and compared with the
+# implementation's Laplacian / gradient / e2v / n-hop.  `C13_stagewise_factor`
+# proves that `run_query` is exactly this composition; the first stage is held
+# against the exact Python oracle at these sizes (and against the model on
+# every small mesh).
+BIG_NODES = 60
+STAGE_MAX_N = 300
+
+
+def n_elements(mesh):
+    return sum(len(rows) for _, rows in mesh['blocks'])
+
+
+def is_big(mesh):
+    return len(mesh['nodes']) > BIG_NODES or n_elements(mesh) > BIG_NODES
+
+
+def mark_big(c):
+    """cases whose mesh is too large for the full in-Coq model: property oracle
+    + stage-wise Coq check instead (unless explicitly `full_model`)"""
+    meshes = c.get('meshes') or [c['mesh']]
+    if any(is_big(m) for m in meshes) and not c.get('full_model'):
+        c.setdefault('oracle_only', True)
+        c.setdefault('stagewise', not c.get('meshes'))
+    return c
+
+
+def gq_to_coq(q):
+    b = lambda x: 'true' if x else 'false'  # noqa
+    k = q['kind']
+    if k == 'lap':
+        return 'GLap'
+    if k == 'grad':
+        return f"GGrad {b(VARIANT['grad_total'])}"
+    if k == 'e2v':
+        return f"GE2V {b(q['self_loop'])} {b(VARIANT['e2v_strict'])}"
+    if k == 'hop':
+        return f"GHop {int(q['n'])} {b(q['self_loop'])} {b(VARIANT['hop_zero_diag'])}"
+    raise AssertionError(k)
+
+
+def dres_to_coq(c):
+    """canonical (shape, triples) -> (rows, cols, [(column, value) pairs of every row])
+    (the comparison form of Model.check_graph)"""
+    if c is None:
+        return 'None'
+    (r, cc), tr = c
+    rows = [[] for _ in range(r)]
+    for i, j, v in tr:
+        rows[i].append(f'({j},{v})' if v >= 0 else f'({j},({v}))')
+    return f"Some ({r}, {cc}, [" + ';\n  '.join('[' + ';'.join(row) + ']' for row in rows) + '])'
+
+
+def stage_adj_key(q):
+    """(nodal, order1) of the adjacency matrix the query is built on"""
+    k = q['kind']
+    if k in ('lap', 'grad'):
+        return (bool(q['nodal']), bool(q.get('order1')))
+    if k == 'e2v':
+        return (bool(q['nodal']), False)
+    if k == 'hop':
+        return (bool(q['nodal']), bool(q.get('order1')) if q['nodal'] else False)
+    return None
+
+
+def stage_affordable(q, n, nnz, tier):
+    """cost limits of the dense in-Coq evaluation"""
+    k = q['kind']
+    if n > STAGE_MAX_N:
+        return False
+    if k == 'lap':
+        return True
+    if k == 'grad':
+        return (nnz - n) // 2 <= 450
+    if k == 'e2v':
+        return nnz <= 450
+    if k == 'hop':
+        return q['n'] <= 3 and n <= (140 if tier == 'thorough' else 40)
+    return False
+
+
+def coq_check_stage(ctx, cases, results, name):
+    """-> {case id: [failing step indices]} (None = did not compile) for the
+    cases marked `stagewise`"""
+    out = {}
+    groups = []          # (case, A literal, [(qi, gquery, result)])
+    for c in cases:
+        if not c.get('stagewise'):
+            continue
+        out[c['id']] = []
+        res = results[c['id']]
+        adjs = {}
+        for qi, q in enumerate(c['queries']):
+            if q['kind'] == 'adj' and 'triples' in res[qi]:
+                o1 = q['order1'] and not (q.get('via') == 'dispatch' and not q['nodal'])
+                adjs.setdefault((bool(q['nodal']), bool(o1)), res[qi])
+        per = {}
+        for qi, q in enumerate(c['queries']):
+            key = stage_adj_key(q) if q['kind'] != 'mod' else None
+            if key is None:
+                continue
+            a = adjs.get(key)
+            if a is None:
+                ctx.count('stage:no-adjacency-query-in-the-case')
+                continue
+            n = a['shape'][0]
+            if a['shape'][0] != a['shape'][1] or not stage_affordable(q, n, len(a['triples']),
+                                                                      ctx.tier):
+                ctx.count('stage:oracle-only (too large for the in-Coq operator)')
+                continue
+            if q['kind'] == 'e2v' and q['self_loop'] and res[qi].get('exc') == 'AttributeError':
+                continue
+            per.setdefault(key, []).append(qi)
+        for key, idx in per.items():
+            a = adjs[key]
+            n = a['shape'][0]
+            rows = [[] for _ in range(n)]
+            for i, j, v in a['triples']:
+                if v:
+                    rows[i].append(str(j))
+            lit = f"(bmat_of_rows {n} [" + ';\n '.join('[' + ';'.join(r) + ']' for r in rows) + '])'
+            cost = len(a['triples']) + sum(len(res[qi].get('triples', ())) for qi in idx)
+            groups.append((c, lit, idx, cost))
+    # parsing budget (numerals handed to coqc): cheapest groups first
+    budget = 60000 if ctx.tier == 'quick' else 900000
+    groups.sort(key=lambda g: g[3])
+    kept = []
+    for g in groups:
+        if g[3] > budget:
+            ctx.count('stage:oracle-only (in-Coq parsing budget of the tier)', len(g[2]))
+            continue
+        budget -= g[3]
+        kept.append(g[:3])
+    groups = kept
+    files, chunk, size = [], [], 0
+    for g in groups:
+        chunk.append(g)
+        size += len(g[2])
+        if size >= 60:
+            files.append(chunk)
+            chunk, size = [], 0
+    if chunk:
+        files.append(chunk)
+    for fi, chunk in enumerate(files):
+        txt = HEADER
+        items = []
+        for k, (c, lit, idx) in enumerate(chunk):
+            txt += f'Definition A_{k} : bmat := {lit}.\n'
+            qs = ';\n '.join(f"({gq_to_coq(c['queries'][qi])}, "
+                             f"{dres_to_coq(canon(c['queries'][qi], results[c['id']][qi]))})"
+                             for qi in idx)
+            items.append(f"({k}%nat, check_graph A_{k}\n   [{qs}])")
+            ctx.count('stage:in-Coq operator on the implementation\'s adjacency', len(idx))
+        txt += 'Definition cases : list (nat * list nat) := [\n' + ';\n'.join(items) + '].\n'
+        txt += 'Goal True. idtac "@@ failing". Abort.\n'
+        txt += ('Eval vm_compute in filter (fun c => match snd c with [] => false | _ => true end) '
+                'cases.\n')
+        rc, o, err = ctx.coq_eval(f'{name}_stage_{fi}', txt, timeout=900)
+        if rc != 0:
+            ctx.log('stage-wise correspondence file failed to compile:', err[-600:])
+            for c, _, _ in chunk:
+                out[c['id']] = None
+            continue
+        t = lib.parse_marked(o).get('failing', '')
+        t = t.split(': list')[0].replace('%nat', '')
+        for m in re.finditer(r'\((\d+),\s*\[([0-9;\s]*)\]\)', t):
+            c, _, idx = chunk[int(m.group(1))]
+            if out[c['id']] is not None:
+                out[c['id']] += [idx[int(x)] for x in re.findall(r'\d+', m.group(2))]
+    return out
+
+
 # --------------------------------------------------------- case generation
 def queries_for(rng, mesh, tier):
     second = any('2' in t for t, _ in mesh['blocks'])
@@ -472,7 +655,54 @@ def big_hop_cases(rng, n_side=4, hops=(12, 16, 20, 32), n_cases=1):
             for nd in (True, False):
                 qs.append({'kind': 'hop', 'nodal': nd, 'n': n, 'self_loop': rng.random() < 0.5,
                            'order1': False})
-        out.append({'mesh': mesh, 'queries': qs, 'oracle_only': True})
+        out.append({'mesh': mesh, 'queries': qs, 'oracle_only': True, 'stagewise': False})
+    return out
+
+
+def hub_queries(rng, nodal_only=False, hops=True):
+    qs = [{'kind': 'inc', 'order1': False},
+          {'kind': 'adj', 'nodal': True, 'order1': False, 'via': 'direct'}]
+    modes = [True] if nodal_only else [True, False]
+    if not nodal_only:
+        qs.append({'kind': 'adj', 'nodal': False, 'order1': False, 'via': 'direct'})
+    for nd in modes:
+        qs.append({'kind': 'lap', 'nodal': nd, 'order1': False})
+        qs.append({'kind': 'grad', 'nodal': nd, 'order1': False})
+        qs.append({'kind': 'e2v', 'nodal': nd, 'self_loop': False})
+        if hops:
+            qs.append({'kind': 'hop', 'nodal': nd, 'n': rng.choice([2, 3]),
+                       'self_loop': rng.random() < 0.5, 'order1': False})
+    qs.append({'kind': 'e2v', 'nodal': True, 'self_loop': True})
+    return qs
+
+
+def hub_cases(rng, tier):
+    """magnitude dimension: a vertex of degree / a node pair of multiplicity
+    beyond the narrow integer widths.  2^7 and 2^8: property oracle + stage-wise
+    in-Coq operators (+ the full model on two meshes in the thorough tier);
+    2^15 and 2^16: nodal graph of a star / polar cap, property oracle only."""
+    out = []
+    kinds = list(gen.HUBS)
+    rng.shuffle(kinds)
+    for kind in kinds:                               # degree crosses 2^7
+        mesh = gen.gen_hub(rng, kind, rng.randint(129, 144))
+        out.append({'mesh': mesh, 'queries': hub_queries(rng)})
+    for kind in (kinds if tier == 'thorough' else kinds[:1]):      # 2^8
+        mesh = gen.gen_hub(rng, kind, rng.randint(257, 272))
+        out.append({'mesh': mesh, 'queries': hub_queries(rng)})
+    big_kinds = ['star-line', 'cap-tri']
+    rng.shuffle(big_kinds)
+    bases = rng.sample([2 ** 15, 2 ** 16], 2)
+    for kind, base in list(zip(big_kinds, bases))[:2 if tier == 'thorough' else 1]:
+        mesh = gen.gen_hub(rng, kind, base + rng.randint(1, 300))
+        out.append({'mesh': mesh, 'queries': hub_queries(rng, nodal_only=True, hops=False),
+                    'oracle_only': True, 'stagewise': False})
+    if tier == 'thorough':
+        for kind in kinds[:2]:
+            mesh = gen.gen_hub(rng, kind, rng.randint(129, 132), n_unref=0)
+            out.append({'mesh': mesh, 'full_model': True,
+                        'queries': [{'kind': 'lap', 'nodal': True, 'order1': False},
+                                    {'kind': 'lap', 'nodal': False, 'order1': False}]})
     return out
 
 
@@ -556,10 +786,15 @@ def gen_cases(ctx):
     for c in big:
         c['id'] = len(cases)
         cases.append(c)
+    # hub stream: vertex degrees / multiplicities beyond the narrow integer widths
+    for c in hub_cases(ctx.rng, ctx.tier):
+        c['id'] = len(cases)
+        cases.append(c)
     # history stream: queries / in-place modification (connectivity assignment,
     # remove_useless_nodes) / the same queries again on ONE object; the model is
     # evaluated on the mesh as modified
-    base = [c for c in cases if not c.get('shared') and not c.get('oracle_only')]
+    base = [c for c in cases if not c.get('shared') and not c.get('oracle_only')
+            and not is_big(c['mesh'])]
     for c in base[1::4]:
         h = history_case(ctx.rng, c)
         h['id'] = len(cases)
@@ -577,6 +812,8 @@ KNOWN_ORACLE = {'isolated-vertex-diagonal', 'isolated-vertex-column', 'no-edge-g
 
 def evaluate(ctx, cases, name):
     """run implementation, oracle and model on the cases"""
+    for c in cases:
+        mark_big(c)
     types, results = run_impl(ctx, cases, tag=name)
     oracle_fail = {}
     for c in cases:
@@ -652,6 +889,13 @@ def evaluate(ctx, cases, name):
             corr.update(upd)
             for k in failing:
                 ctx.notes['variant_by_behaviour:' + k] = VARIANT[k]
+    # stage-wise check of the large cases, under the variants just decided
+    st = coq_check_stage(ctx, cases, results, name)
+    for cid, f in st.items():
+        if f is None or corr.get(cid) is None:
+            corr[cid] = None
+        else:
+            corr[cid] = sorted(set(corr[cid]) | set(f))
     return types, results, oracle_fail, corr
 
 
@@ -680,6 +924,9 @@ def shrink(ctx, case, qi, pred, rounds=6):
         meshes, steps = rebuild_history(case['mesh'], case['queries'][:qi + 1])
         return {'id': 0, 'mesh': case['mesh'], 'meshes': meshes, 'queries': steps,
                 'shared': True}
+    big = is_big(case['mesh'])
+    if big:
+        rounds = min(rounds, 3)          # every candidate is a large mesh
     for rd in range(rounds):
         cands = []
         for bi, (t, rows) in enumerate(cur['mesh']['blocks']):
@@ -690,7 +937,7 @@ def shrink(ctx, case, qi, pred, rounds=6):
             m = drop_node(cur['mesh'], ni)
             if m is not None:
                 cands.append(m)
-        cands = cands[:60]
+        cands = cands[:20 if big else 60]
         if not cands:
             break
         cs = [{'id': i, 'mesh': m, 'queries': cur['queries']} for i, m in enumerate(cands)]
@@ -839,7 +1086,10 @@ def main(ctx):
                 'second-order mixed), 1-3 components, 0-2 unreferenced nodes, ids 1..n / sparse / '
                 '>2^31, node and element storage order shuffled, block insertion order shuffled; '
                 'per mesh ~20 queries (incidence, adjacency x2, n-hop 1..4 with/without self loop, '
-                'laplacian, edge gradient, e2v; both order1_only values); one case = one '
+                'laplacian, edge gradient, e2v; both order1_only values); hub meshes (star of '
+                'lines, polar cap, tets around an edge, mixed cap) with a vertex of degree / a node '
+                'pair of multiplicity beyond 2^7, 2^8 (oracle + in-Coq operators on the '
+                'implementation\'s adjacency) and 2^15, 2^16 (nodal, oracle only); one case = one '
                 '(mesh, query); non-trivial = the implementation returned a matrix with at least '
                 'one entry; distinct = distinct (mesh, query)')
     ctx.trusted += [
@@ -849,6 +1099,9 @@ def main(ctx):
         'scipy.sparse semantics assumed by the model: bool products are or/and, results store no '
         'explicit zeros, CSR->COO is row-major (pinned by the correspondence only)',
         'harness/c13.py oracle (the property in Python, exact integers) is a search aid, not proof',
+        'meshes with more than 60 nodes/elements: the first stage (mesh -> adjacency) is held '
+        'against the Python oracle only; the following operators are evaluated in Coq on the '
+        'implementation\'s adjacency (C13_stagewise_factor proves the model is this composition)',
     ]
     ctx.assumptions += ['queries on a freshly built FEMData, plus a same-object stream (query '
                         'sequences on one unmodified object must give the same answers); cache '
@@ -890,8 +1143,15 @@ def main(ctx):
         ctx.count('object:' + ('one-shared-for-the-sequence' if c.get('shared') else 'fresh-per-query'))
         ctx.count('node_order:' + str(tg.get('node_order')))
         ctx.count('elem_order:' + str(tg.get('elem_order')))
-        if c.get('oracle_only'):
+        if c.get('stagewise'):
+            ctx.count('tie:property oracle + stage-wise in-Coq operators (mesh too large for '
+                      'the in-Coq first stage)')
+        elif c.get('oracle_only'):
             ctx.count('tie:oracle-only (too large for in-Coq evaluation)')
+        if tg.get('hub_elements'):
+            he = tg['hub_elements']
+            ctx.count('hub_degree:>=' + ('2^16' if he > 2 ** 16 else '2^15' if he > 2 ** 15 else
+                                         '2^8' if he > 2 ** 8 else '2^7'))
         if tg.get('malformed'):
             ctx.count('malformed:' + tg['malformed'])
         if c.get('history'):
@@ -940,7 +1200,12 @@ def replay(path):
             'tags': {'kind': 'replay'}}
     pre = c.get('earlier_queries_on_the_same_object', []) if c.get('shared_object') else []
     k = len(pre)
-    meshes, steps = rebuild_history(mesh, pre + [c['query'], {'kind': 'inc', 'order1': False}])
+    tail = [c['query'], {'kind': 'inc', 'order1': False}]
+    key = stage_adj_key(c['query']) if c['query']['kind'] not in ('inc', 'adj', 'mod') else None
+    if key is not None and is_big(mesh) and not pre:
+        # the stage-wise check needs the adjacency matrix the operator is built on
+        tail.append({'kind': 'adj', 'nodal': key[0], 'order1': key[1], 'via': 'direct'})
+    meshes, steps = rebuild_history(mesh, pre + tail)
     for m in meshes[1:]:
         m['tags'] = {'kind': 'replay'}
     case = {'id': 0, 'mesh': mesh, 'meshes': meshes, 'shared': bool(c.get('shared_object')),
